@@ -138,6 +138,15 @@
         }
         assert!(s2 == has_sender);
         assert!(wakes(&c) == 0 && wakes(&old) == 0, "C34: poll wakes nobody");
+        if r.0 == 0 {
+            // the stored waker must be the one of THIS poll: wake whatever is stored and see who was woken
+            let stored = critical_section::with(|cs| rx.inner.borrow(cs).borrow_mut().waker.take());
+            match stored {
+                Some(sw) => sw.wake(),
+                None => assert!(false),
+            }
+            assert!(wakes(&c) == 1 && wakes(&old) == 0, "C34: Pending registers the waker of the most recent poll (a stale waker would lose the wake-up)");
+        }
         core::mem::forget(tx);
         core::mem::forget(rx);
         core::mem::forget(w);
